@@ -39,10 +39,37 @@ class _NP:
         return sympy.log(x)
 
 
-def _exec_module(path, name, preset):
+class _PrimitivesToSymbols(ast.NodeTransformer):
+    """symbolic mode: a module-level `NAME = <numeric literal>` becomes NAME = Symbol(NAME,
+    positive) so that derived quantities are expressions over the primitive measured numbers"""
+
+    def __init__(self):
+        self.primitives = []
+
+    def visit_Module(self, node):
+        for st in node.body:
+            if isinstance(st, ast.Assign) and len(st.targets) == 1 and isinstance(
+                    st.targets[0], ast.Name):
+                v = st.value
+                if isinstance(v, ast.UnaryOp) and isinstance(v.op, ast.USub):
+                    v = v.operand
+                if isinstance(v, ast.Constant) and isinstance(v.value, (int, float)) \
+                        and not isinstance(v.value, bool):
+                    name = st.targets[0].id
+                    self.primitives.append(name)
+                    st.value = ast.copy_location(
+                        ast.Call(func=ast.Name(id="_SYM", ctx=ast.Load()),
+                                 args=[ast.Constant(value=name)], keywords=[]), st.value)
+        return node
+
+
+def _exec_module(path, name, preset, symbolic=False):
     with open(path) as f:
         src = f.read()
     tree = ast.parse(src)
+    if symbolic:
+        tr = _PrimitivesToSymbols()
+        tree = tr.visit(tree)
     body = []
     for st in tree.body:
         if isinstance(st, (ast.Import, ast.ImportFrom)):
@@ -63,7 +90,8 @@ def _exec_module(path, name, preset):
         body.append(st)
     tree.body = body
     tree = ast.fix_missing_locations(_FloatToRational().visit(tree))
-    ns = {"__name__": name, "np": _NP, "_R": lambda s: sympy.Rational(s)}
+    ns = {"__name__": name, "np": _NP, "_R": lambda s: sympy.Rational(s),
+          "_SYM": lambda n: sympy.Symbol(n, positive=True)}
     for k, v in preset.items():
         if k != "__from__":
             ns[k] = v
@@ -72,10 +100,13 @@ def _exec_module(path, name, preset):
 
 
 class Tables:
-    def __init__(self, repo_root):
+    def __init__(self, repo_root, symbolic=False):
+        """symbolic=True: the numeric literals assigned at the top level of
+        _physical_ratios.py are free positive symbols (named after the variable)"""
         pkg = os.path.join(repo_root, "unyt")
+        self.symbolic = symbolic
         self.ratios = _exec_module(os.path.join(pkg, "_physical_ratios.py"),
-                                   "unyt._physical_ratios", {})
+                                   "unyt._physical_ratios", {}, symbolic=symbolic)
         # dimensions: strip the decorators section by presetting nothing; warn_deprecated unused
         dims_ns = _exec_module(os.path.join(pkg, "dimensions.py"), "unyt.dimensions",
                                {"warn_deprecated": lambda *a, **k: None,
